@@ -7,6 +7,7 @@ From PV Require Import Extract.RunC12.
 From PV Require Import Extract.RunC09.
 From PV Require Import Extract.RunC13.
 From PV Require Import Extract.RunC06.
+  Validators.TableStruct Extract.Codec Extract.RunC20.
 Import ListNotations.
 Local Open Scope N_scope.
 
@@ -90,5 +91,8 @@ Definition run (cmd : N) (arg : sx) : sx :=
   | 62 => run_c06_opm arg
   | 63 => run_c06_dec arg
   | 64 => run_c06_prec_ok arg
+  | 200 => run_c20_build arg
+  | 201 => run_c20_class arg
+  | 202 => run_c20_spec arg
   | _ => L [A 999999]
   end.
